@@ -115,7 +115,7 @@ def host_elements(slot):
 def _act_elems(a):
     if a['a'] in ('ret', 'build') and 'v' in a:
         return V.scalar_count(a['v'])
-    if a['a'] == 'set':
+    if a['a'] in ('set', 'set_in_thread'):
         return sum(V.scalar_count(x) for x in a['v'])
     if a['a'] in ('nested', 'nested_build'):
         return 100 + 6 * len(a.get('f', ''))
